@@ -25,6 +25,8 @@ pub struct Case {
     earlier: Option<u32>,
     /// Some((TargetInfoMaxLen, TargetNameMaxLen)) written over the honest values (receivers must ignore MaxLen)
     maxlen: Option<(u16, u16)>,
+    /// TargetName of the CHALLENGE (None: "SRV"); an empty name puts the target information first in the payload
+    target_name: Option<String>,
 }
 
 pub struct C15 {
@@ -87,7 +89,7 @@ impl Prop for C15 {
     fn prepare(&mut self, tier: Tier) -> Result<(), String> {
         let strings = string_alphabet();
         let default_av: Vec<(u16, usize)> = vec![(rn::AV_NB_DOMAIN, 6), (rn::AV_NB_COMPUTER, 6), (rn::AV_DNS_DOMAIN, 18), (rn::AV_DNS_COMPUTER, 18), (rn::AV_TIMESTAMP, 8)];
-        let base = Case { domain: "DOM".into(), user: "user".into(), password: "S3cr3t-pässwörd".into(), via_hash: false, challenge: CHALLENGES[2], nonce: 2, av: default_av.clone(), flags: rn::DEFAULT_FLAGS, block: "base", earlier: None, maxlen: None };
+        let base = Case { domain: "DOM".into(), user: "user".into(), password: "S3cr3t-pässwörd".into(), via_hash: false, challenge: CHALLENGES[2], nonce: 2, av: default_av.clone(), flags: rn::DEFAULT_FLAGS, block: "base", earlier: None, maxlen: None, target_name: None };
         let mut cs = vec![base.clone()];
         // strings: one dimension at a time, and all three together; password vs hash
         for s in &strings {
@@ -185,6 +187,21 @@ impl Prop for C15 {
                 }
             }
         }
+        // both character-set bits set (Unicode wins), with and without VERSION; empty / long target names
+        for version in [true, false] {
+            for via_hash in [false, true] {
+                let mut flags = rn::F_REQUEST_TARGET | rn::F_SIGN | rn::F_SEAL | rn::F_NTLM | rn::F_ESS | rn::F_TARGET_INFO | rn::F_128 | rn::F_KEY_EXCH | rn::F_UNICODE | rn::F_OEM;
+                if version {
+                    flags |= rn::F_VERSION;
+                }
+                cs.push(Case { flags, via_hash, block: "unicode-and-oem-bits", ..base.clone() });
+                cs.push(Case { flags, via_hash, user: "é日😀".into(), domain: "日".into(), block: "unicode-and-oem-bits", ..base.clone() });
+                for tn in ["", "S", "a-rather-long-target-name.example.org"] {
+                    let f = if version { rn::DEFAULT_FLAGS } else { rn::DEFAULT_FLAGS & !rn::F_VERSION };
+                    cs.push(Case { flags: f, via_hash, target_name: Some(tn.to_string()), block: "target-name", ..base.clone() });
+                }
+            }
+        }
         // OEM sessions with names that are not upper case already (ASCII only)
         for (domain, user) in [("Dom", "User"), ("dom", "user"), ("DOM", "USER"), ("", "user"), ("contoso.local", "Alice")] {
             for version in [true, false] {
@@ -240,7 +257,7 @@ impl Prop for C15 {
         json!({"idx": idx, "case": self.cases[idx as usize]})
     }
     fn rule(&self) -> String {
-        "cases = (domain, user, password | NT hash, server challenge, client nonce pattern, target-info block, negotiate flags). Strings: class^len for class in {a, é, 日, 😀} x len in {0,1,7,8,15,16,17,31,32,64}, every mixed string of <=3 code points over the four classes, the boundary code points of every UTF-8/UTF-16 encoding length (U+1, 7F, 80, 7FF, 800, D7FF, E000, FFFD, FFFF, 10000, 10001, FFFFF, 100000, 10FFFF) alone and between letters, a few practical names; varied one at a time and jointly (full user x domain and password x domain products in thorough); 4 challenges x 3 nonce patterns; every subset of the 9 optional AV ids with the timestamp at first/middle/last (every) position; every permutation of <=4 pairs including the timestamp; value lengths {0,2,16,510}; target information of 30000..65491 bytes (the largest the 16-bit NT response length can echo) with short and kilobyte-long names; OEM sessions with lower / mixed / upper case ASCII names; TargetInfo / TargetName MaxLen fields set to 0, 1, 8, 0x7FFF, 0xFFFF while Len stays honest; flags with/without VERSION and UNICODE and neutral bits; and a second handshake on the same Ntlm object for every ordered pair of (VERSION, UNICODE) flag sets. Each AUTHENTICATE is verified by the reference MS-NLMP server: field descriptors, NTProofStr, LMv2, key-exchange unwrap, MIC, names; and hash-based == password-based. Non-trivial: every case except the base one.".into()
+        "cases = (domain, user, password | NT hash, server challenge, client nonce pattern, target-info block, negotiate flags). Strings: class^len for class in {a, é, 日, 😀} x len in {0,1,7,8,15,16,17,31,32,64}, every mixed string of <=3 code points over the four classes, the boundary code points of every UTF-8/UTF-16 encoding length (U+1, 7F, 80, 7FF, 800, D7FF, E000, FFFD, FFFF, 10000, 10001, FFFFF, 100000, 10FFFF) alone and between letters, a few practical names; varied one at a time and jointly (full user x domain and password x domain products in thorough); 4 challenges x 3 nonce patterns; every subset of the 9 optional AV ids with the timestamp at first/middle/last (every) position; every permutation of <=4 pairs including the timestamp; value lengths {0,2,16,510}; target information of 30000..65491 bytes (the largest the 16-bit NT response length can echo) with short and kilobyte-long names; OEM sessions with lower / mixed / upper case ASCII names; both character-set bits set; empty / 1-character / long target names (the target information then starts the payload); TargetInfo / TargetName MaxLen fields set to 0, 1, 8, 0x7FFF, 0xFFFF while Len stays honest; flags with/without VERSION and UNICODE and neutral bits; and a second handshake on the same Ntlm object for every ordered pair of (VERSION, UNICODE) flag sets. Each AUTHENTICATE is verified by the reference MS-NLMP server: field descriptors, NTProofStr, LMv2, key-exchange unwrap, MIC, names; and hash-based == password-based. Non-trivial: every case except the base one.".into()
     }
     fn assumptions(&self) -> Vec<String> {
         vec![
@@ -254,7 +271,7 @@ impl Prop for C15 {
         let cfg = ServerCfg {
             flags: c.flags,
             challenge: c.challenge,
-            target_name: "SRV".into(),
+            target_name: c.target_name.clone().unwrap_or_else(|| "SRV".into()),
             av_pairs: c.av.iter().map(|(id, len)| (*id, av_value(*id, *len))).collect(),
             maxlen_override: None,
         };
